@@ -43,8 +43,14 @@ def run(ctx):
     vf.validate_runs(ctx, "RunnerTrace", tb, keyfn=c16.keyfn, label="runner timing under cancel")
     ctx.count(0, [("run", i) for i in range(n1 + n2 + n3)])
     # socket-level tier: SIGINT to the real binary mid-scan and during the exit delay; no run of any scenario may crash or hang
+    # the chunk loop under Ctrl-C: no pass is started after the cancellation (as found - finding F18 - the model variant fails)
+    ctx.tlc_mc("MC_ScanRun", "MC_ScanRun", workers=8, timeout=900)
+    ctx.tlc_mc("MC_ScanRun", "MC_ScanRun_passAfterCancel", workers=2, timeout=300, expect_violation="NoPassAfterCancel")
     n4, rej = wt.run_wire(ctx, label="c12w", focus="clean")
     wt.report(ctx, "C12", rej)
+    # runs with a Ctrl-C as event sequences against ScanRun: Sigint -> no further pass, at most the probes in flight, exit within the bound
+    ctx.wire_events = [e for e in getattr(ctx, "wire_events", []) if e["expect"]["kind"] == "packetsigint"]
+    wt.scanrun_validate(ctx, "C12", "c12s")
     for t in (t1, t2):
         for r0 in vf.split_runs(vf.read_ndjson(t))[1:3]:
             ctx.sample(r0[:40])
